@@ -71,11 +71,23 @@ def place_key(o: IbanOracle, g, cc, code, rng):
 # ------------------------------------------------------------------------------------------------ relations
 # `api` abstracts over "library in this process" and "library in a package copy" (same relation code for both).
 
+def _caller_changes(v):
+    """A returned list belongs to the caller: it sorts, filters and pops as it likes, and no later answer may show it."""
+    if type(v) is list:
+        v.reverse()
+        del v[1:]
+        v.append("changed-by-caller")
+
+
 class LocalApi:
     def candidates(self, cc, code):
         from ..lib import BIC, outcome
-        r = outcome(lambda: [str(b) for b in BIC.candidates_from_bank_code(cc, code)])
-        return r
+        def f():
+            got = BIC.candidates_from_bank_code(cc, code)
+            out = [str(b) for b in got]
+            _caller_changes(got)
+            return out
+        return outcome(f)
 
     def from_bank_code(self, cc, code):
         from ..lib import BIC, outcome
@@ -85,7 +97,10 @@ class LocalApi:
         from ..lib import BIC, outcome
         def f():
             b = BIC(bic, allow_invalid=True)
-            return {"domestic_bank_codes": b.domestic_bank_codes, "exists": b.exists}
+            codes = b.domestic_bank_codes
+            out = {"domestic_bank_codes": list(codes), "exists": b.exists}
+            _caller_changes(codes)
+            return out
         return outcome(f)
 
     def iban_info(self, text):
@@ -175,6 +190,9 @@ def check_iban(rec: Rec, api, table, idx, text, where):
 
 
 def replay(rec, case):
+    if case["input"].get("origin") == "configurations":
+        from ._configs import replay as _r
+        return _r(rec, case)
     i = case["input"]
     if i.get("where", "").startswith("copy"):
         run_config(rec, i["config"], "replay")
@@ -464,6 +482,8 @@ def run(ctx):
     ctx.pmap(shard_copy, [(i, ctx.seed) for i in range(ctx.pick(48, 1500))])
     ctx.extra["registry_keys"] = len(keys)
     ctx.extra["registry_bics"] = len(R["by_bic"])
+    from ._configs import stage as _config_stage
+    _config_stage(ctx, ['lookup'])
     ctx.require_classes("key-multi", "key-single", "key-bicless", "key-unlisted", "key-boundary-shift", "iban-listed", "iban-random-unlisted",
                         "choice-8char", "choice-xxx", "choice-first", "copy-config", "copy-keys-multi-candidate",
                         "copy-config-with-v2")
